@@ -3,6 +3,7 @@ package traversal
 import (
 	"errors"
 	"fmt"
+	"reflect"
 
 	"github.com/ipld/go-ipld-prime/datamodel"
 	"github.com/ipld/go-ipld-prime/linking"
@@ -485,7 +486,7 @@ func (prog Progress) walkTransforming(n datamodel.Node, s selector.Selector, fn 
 		if err != nil {
 			return nil, err
 		}
-		if new_n != n {
+		if !sameNode(new_n, n) {
 			// don't continue on transformed subtrees
 			return new_n, nil
 		}
@@ -680,4 +681,17 @@ func (prog Progress) relink(lnk datamodel.Link, lnkNode datamodel.Node, transfor
 		return nil, err
 	}
 	return nb.Build(), nil
+}
+
+// sameNode reports whether a and b are the very same node.
+// (A plain == on the interface values panics when the Node implementation is not a comparable type.)
+func sameNode(a, b datamodel.Node) bool {
+	if a == nil || b == nil {
+		return a == nil && b == nil
+	}
+	ta := reflect.TypeOf(a)
+	if ta != reflect.TypeOf(b) || !ta.Comparable() {
+		return false
+	}
+	return a == b
 }
